@@ -84,6 +84,9 @@ def run(rep, kf, tier, seed):
     import contracts.add_parameters as cap
     import contracts.endpoint_from_data as cefd
     engine_b.discharge(rep, kf, [cefd.from_data_contract()], "C03", tier, seed)
+    # what is written to api/<tag>/<module>.py is the rendering of that very operation
+    import contracts.project as cproj
+    engine_b.discharge(rep, kf, [cproj.build_contract("NONE")], "C03", tier, seed)
     engine_b.discharge(rep, kf, [rb.body_from_data_contract(), cfgc.get_content_type_contract(), cap.add_parameters_contract()],
                        "C03", tier, seed)
     from props.common import run_bounded
